@@ -795,7 +795,7 @@ class CompartmentalModel:
             assert not strat.is_strain(), "Strains cannot have a mixing matrix."
             # Only allow mixing matrix to be supplied if there is a complete stratification.
             msg = "Mixing matrices only allowed for full stratification."
-            assert strat.compartments == self._original_compartment_names, msg
+            assert set(strat.compartments) == set(self._original_compartment_names), msg
             self._mixing_matrices.append(strat.mixing_matrix)
             # Update mixing categories for force of infection calculation.
             old_mixing_categories = self._mixing_categories
@@ -842,7 +842,7 @@ class CompartmentalModel:
             # Only allow age stratification to be applied with complete stratifications,
             # because everyone has an age.
             msg = "Mixing matrices only allowed for full stratification."
-            assert strat.compartments == self._original_compartment_names, msg
+            assert set(strat.compartments) == set(self._original_compartment_names), msg
 
             for age_idx in range(len(ages) - 1):
                 start_age = int(ages[age_idx])
